@@ -675,7 +675,7 @@ func dryRun(c *Case) (length int, took time.Duration, err error) {
 
 	took = time.Since(t0)
 
-	if s.wantResult != "" && strings.TrimSpace(res) != strings.TrimSpace(s.wantResult) {
+	if s.wantResult != "" && normRes(res) != normRes(s.wantResult) {
 		return 0, 0, fmt.Errorf("unstalled operation returned %q, want %q", res, s.wantResult)
 	}
 
@@ -806,7 +806,7 @@ func run(c Case) ev.Verdict {
 			return ev.Fail("%s with timeout 0: device caught up after %v but the call failed: %v", c.Op, 10*connTimeout, got.err)
 		}
 
-		if s.wantResult != "" && strings.TrimSpace(got.res) != strings.TrimSpace(s.wantResult) {
+		if s.wantResult != "" && normRes(got.res) != normRes(s.wantResult) {
 			return ev.Fail("%s with timeout 0: result %q, want %q", c.Op, got.res, s.wantResult)
 		}
 
@@ -837,7 +837,7 @@ func run(c Case) ev.Verdict {
 			return ev.Fail("%s: all %d needed bytes were delivered (stall after %d) but the call failed: %v", c.Op, decisive, k, got.err)
 		}
 
-		if s.wantResult != "" && strings.TrimSpace(got.res) != strings.TrimSpace(s.wantResult) {
+		if s.wantResult != "" && normRes(got.res) != normRes(s.wantResult) {
 			return ev.Fail("%s: result %q, want %q", c.Op, got.res, s.wantResult)
 		}
 
@@ -984,6 +984,17 @@ func maxDur(a, b time.Duration) time.Duration {
 var stallProp = &ev.Prop[Case]{ID: "C05", Name: "stall", Gen: gen, Run: run, Bubble: true, Settle: 30 * time.Second}
 
 // enumerateK runs every stall point of fixed exchanges for every operation (thorough tier).
+var (
+	msgIDRe = regexp.MustCompile(`message-id="\d+"`)
+	vIDRe   = regexp.MustCompile(`<data>v\d+</data>`)
+)
+
+// normRes: results compared modulo surrounding white space and the message-id numbering (which id
+// the library gives its first rpc is not this property's business; the server model echoes it).
+func normRes(s string) string {
+	return vIDRe.ReplaceAllString(msgIDRe.ReplaceAllString(strings.TrimSpace(s), `message-id="N"`), "<data>vN</data>")
+}
+
 func enumerateK(t *testing.T) {
 	if os.Getenv("VERIF_CHILD_CASE") != "" || os.Getenv("VERIF_REPLAY") != "" {
 		t.Skip()
